@@ -1,9 +1,11 @@
 #ifndef C02_STACK_SPECDEFS_H
 #define C02_STACK_SPECDEFS_H
 #ifndef MAXN
-#define MAXN 512 /* TMCG_MAX_CARDS; the finder variant uses a small value */
+#define MAXN TMCG_MAX_CARDS
 #endif
+#ifndef ALL
 #define ALL(k, body) __CPROVER_forall { size_t k; (k < MAXN) ==> (body) }
+#endif
 #define VP V(vtmf->p)
 #define VQ V(vtmf->q)
 #define VG V(vtmf->g)
@@ -13,6 +15,9 @@
 #define MASK1(c1, r) MULMOD(POWM(VG, (r), VP), (c1), VP)
 #define MASK2(c2, r) MULMOD(POWM(VH, (r), VP), (c2), VP)
 /* well-formed container objects (model capacity MAXN) */
+/* Objects come from __CPROVER_is_fresh, i.e. as BYTE arrays: CBMC 6.11 answers reads through a pointer to an inner
+ * member at a symbolic index of a TYPED array inconsistently (measured: &data[i].second then ->r->v differs from
+ * data[i].second.r->v), which shows up as spurious failures; byte-typed objects do not have the problem. */
 #define STACK_OK(s) (__CPROVER_is_fresh((s), sizeof(*(s))) && (s)->stack.cap == MAXN && (s)->stack.size <= MAXN && \
                      __CPROVER_is_fresh((s)->stack.data, MAXN * sizeof(VTMF_Card)))
 #define SS_OK(s) (__CPROVER_is_fresh((s), sizeof(*(s))) && (s)->stack.cap == MAXN && (s)->stack.size <= MAXN && \
